@@ -3,7 +3,8 @@
 // Every line of scripts.jsonl is one execution:
 //   {"t":"pipe|unix|tcps4|tcpsu|tcpc4|tcpcu","thr":T,"buf":B,"ops":[...]}
 //   ops: {"o":"send","n":N} {"o":"enable"} {"o":"disable"} {"o":"disconnect"}
-//        {"o":"pread","n":N} {"o":"pwrite","n":N} {"o":"pshut"} {"o":"pclose"}
+//        {"o":"pread","n":N} {"o":"pwrite","n":N} {"o":"pshut"} {"o":"pclose"} {"o":"pabort"}
+//                         pshut: shutdown(SHUT_WR); pclose: drain input, close; pabort: SO_LINGER 0 + close without draining (RST)
 //        {"o":"pass","c":C,"w":"recv|complete|close","in":[ops]}   one loop pass; the receive callback consumes
 //                         min(C,len) bytes (C<0: all); ops in "in" are executed from inside the next callback of kind w
 //                         (in this pass or, if none fires now, whenever it fires later - also during settle)
@@ -211,12 +212,15 @@ static void peer_write(long long n) {
     X->pwrote += done;
     ev("{\"e\":\"PWrite\",\"n\":" + std::to_string(n) + ",\"ret\":" + std::to_string(done) + ",\"err\":" + std::to_string(err) + "}");
 }
-static void peer_shut(bool full) {
-    if (X->pclosed && !full) return;
-    if (full) {
+static void peer_shut(int how) {        // 1: shut down the sending side, 2: drain the input, then close, 3: abort (reset)
+    if (X->pclosed && how == 1) return;
+    if (how >= 2) {
         if (X->peer_r < 0) return;
-        peer_read(1LL << 40, true);          // a closing peer that leaves unread input would reset the connection
-        ev("{\"e\":\"PShut\",\"how\":2}");
+        if (how == 2) peer_read(1LL << 40, true);      // a closing peer that leaves unread input would reset the connection
+        ev("{\"e\":\"PShut\",\"how\":" + std::to_string(how) + "}");
+        if (how == 3 && X->t != "pipe") {              // abort: RST at once (TCP), ECONNRESET if input is unread (AF_UNIX)
+            struct linger lg; lg.l_onoff = 1; lg.l_linger = 0; setsockopt(X->peer_r, SOL_SOCKET, SO_LINGER, &lg, sizeof lg);
+        }
         if (X->peer_w >= 0 && X->peer_w != X->peer_r) close(X->peer_w);
         close(X->peer_r); X->peer_r = X->peer_w = -1;
     } else {
@@ -255,8 +259,9 @@ static void exec_op(const json &op, bool in_cb) {
     } else if (o == "pread") peer_read(op["n"].get<long long>(), false);
     else if (o == "pwrite") peer_write(op["n"].get<long long>());
     else if (o == "hook") { Hook h; h.in = op["in"]; h.times = op.value("times", 1); X->hooks[op["w"].get<std::string>()] = h; }
-    else if (o == "pshut") peer_shut(false);
-    else if (o == "pclose") peer_shut(true);
+    else if (o == "pshut") peer_shut(1);
+    else if (o == "pclose") peer_shut(2);
+    else if (o == "pabort") peer_shut(3);
     else if (in_cb) infra("op not allowed inside a callback: " + o);
     else infra("unknown op " + o);
 }
@@ -358,6 +363,7 @@ static void end_exec() {
 
 // ---- settle: let everything that can still move, move -----------------------------------------------------------------
 static bool need_more() {       // only decides whether it is worth waiting a little longer (kernel asynchrony on TCP)
+    if (X->tcp && X->gone && X->peer_r >= 0 && !X->peer_eof) return true;   // the local side left: the end of the stream is on its way
     if (!X->running) return false;
     if (!X->pclosed && X->pgot < X->sent) return true;
     if (g_rtot < X->pwrote) return true;
